@@ -182,11 +182,19 @@ class Module:
             decos = [unparse(d) for d in ci.node.decorator_list]
             frozen_dc = any(d.split('(')[0] in ('dataclass', 'dataclasses.dataclass') and 'frozen=True' in d.replace(' ', '') for d in decos)
             is_nt = any(b in ('NamedTuple', 'typing.NamedTuple') for b in ci.base_exprs)
+            nt_base = [b for b in ci.node.bases if isinstance(b, ast.Call)]
+            if len(ci.node.bases) == 1 and nt_base and not any(m in ci.methods for m in ('__init__', '__new__', '__getattr__', '__getattribute__')):
+                # class X(namedtuple('X', [...])): the fields of the base call
+                f = self._nt_call_fields(nt_base[0])
+                if f is not None:
+                    return f
             if (frozen_dc or is_nt) and not any(m in ci.methods for m in ('__init__', '__new__', '__post_init__', '__getattr__', '__getattribute__')):
                 fields = [st.target.id for st in ci.node.body if isinstance(st, ast.AnnAssign) and isinstance(st.target, ast.Name) and 'ClassVar' not in unparse(st.annotation)]
                 return tuple(fields) if fields else None
             return None
-        g = self.constant_binding(name)
+        return self._nt_call_fields(self.constant_binding(name))
+
+    def _nt_call_fields(self, g):
         if not (isinstance(g, ast.Call) and len(g.args) == 2 and not g.keywords):
             return None
         fn = unparse(g.func)
